@@ -724,6 +724,14 @@ fn gen_anch_rule(rng: &mut Rng) -> (Vec<Item>, Vec<(String, String)>, String) {
 }
 
 fn generate_oracle(sink: &mut Sink, rng: &mut Rng, n: u64) {
+    // case filters on non-ASCII captures (full Unicode mapping, not the ASCII one)
+    for sample in ["ÉCOLE", "Zürich", "ΑΒΓ", "straße", "İx", "abcÉ", "ǅ", "ÀÉÎõü", "ǆ"] {
+        for filter in ["lowercase", "uppercase"] {
+            let items = vec![Item::Ph { name: "q".to_string(), dest: "x".to_string(), filter: filter.to_string(), sample: sample.to_string() }];
+            let aliases = vec![("q".to_string(), "[^ ;,|:=]+".to_string())];
+            sink.emit("o.c32.cap", &[show_items(&items), show_aliases(&aliases)]);
+        }
+    }
     for i in 0..n {
         match i % 4 {
             0 => {
